@@ -145,7 +145,21 @@ def extract_internal_procedure(procedure, name):
     for v in arr_shapes:
         if v.name not in vars_to_resolve:
             vars_to_resolve.append(v)
-    vars_to_resolve = tuple(vars_to_resolve)
+
+    # Named constants (PARAMETERs) of `procedure` cannot become dummy arguments. Their declarations are
+    # replicated in `inner` instead, preceded by the named constants that their values are defined with.
+    params_to_declare = []
+    def _add_parameter(param):
+        for v in FindVariables().visit(param.type.initial):
+            proc_var = procedure.variable_map.get(v.name)
+            if proc_var is not None and proc_var.type.parameter and proc_var not in params_to_declare:
+                _add_parameter(proc_var)
+        if param not in params_to_declare:
+            params_to_declare.append(param)
+    for v in vars_to_resolve:
+        if v.type.parameter:
+            _add_parameter(v)
+    vars_to_resolve = tuple(v for v in vars_to_resolve if not v.type.parameter)
 
     ## PRODUCING IMPORTS TO INTRODUCE TO `inner`.
     # Get all variables from `inner.spec`. Need to search them for resolving kinds and derived types for
@@ -186,6 +200,7 @@ def extract_internal_procedure(procedure, name):
     # Here also rescoping all variables to the scope of `inner` and specifying intent as "inout",
     # if not set in `procedure` scope.
     # Note: After these lines, `inner` should be self-contained or there is a bug.
+    inner.variables += tuple(v.clone(scope=inner) for v in params_to_declare)
     inner.arguments += tuple(
         v.clone(type=v.type.clone(intent=v.type.intent or 'inout'), scope=inner)
         for v in vars_to_resolve
